@@ -141,7 +141,7 @@ def task_zero_com(ctx):
     """O2/O3: _zero_com zeroes the linear momentum, removes I*omega of angular momentum with the textbook inertia tensor,
     restores the kinetic energy exactly, and does not touch padding slots."""
     ctx.under_contract(MD + ":Molecular_Dynamics_Basic._zero_com", stubs=["torch.linalg.pinv (assumed contract)"])
-    for nat, pad in ((2, False), (2, True)):
+    for nat, pad in (((2, False), (2, True)) if ctx.tier == "quick" else ((2, False), (2, True), (3, False))):
         rec = {"translate": pad}
         tag = "n=%d%s" % (nat, "+pad" if pad else "")
 
